@@ -126,7 +126,7 @@ Proof.
       let w2b := if okf then w2a else report EFlush w2a in
       let w3 := w_drop w2b wra in
       let roll' := reset_size_and_date w3 (RSize m cur) path' in
-      let '(rc, w4) := cleanup_or_queue c w3 false KNever (ns_filter ns) (ns_writes_direct ns) in
+      let '(rc, w4) := cleanup_or_queue c w3 false KNever (ns_filter ns) (if ns_writes_direct ns then Some path' else None) in
       let st' := Active (Some {| rs_naming := ns; rs_roll := roll'; rs_cleanup := KNever; rs_bg := false |}) wr' path' in
       (match rc with Ok _ => Ok tt | Err => Err | Panic => Panic end, w4, st')
     | (Err, w2) => (Err, w2, Active (Some {| rs_naming := ns; rs_roll := RSize m cur; rs_cleanup := KNever; rs_bg := false |}) wr (cname c))
